@@ -3,7 +3,7 @@
    any deterministic interpretation of the data-dependent parts, any global generator state, any
    interleaved activity [env] on the global generator. *)
 From Coq Require Import List Arith ZArith Bool.
-From TLV Require Import Model.Draws Proofs.DrawsProofs Proofs.DrawsProofsSem Proofs.DrawsProofsPy Proofs.DrawsProofsPy2 Proofs.DrawsProofsHist.
+From TLV Require Import Model.Draws Model.DrawsSparse Proofs.DrawsProofsSparse Proofs.DrawsProofs Proofs.DrawsProofsSem Proofs.DrawsProofsPy Proofs.DrawsProofsPy2 Proofs.DrawsProofsHist Proofs.DrawsProofsMax.
 Import ListNotations.
 
 (* check_random_state: None -> the global generator, int in [0, 2**32) -> a fresh object seeded with it (nothing
@@ -791,6 +791,90 @@ Example C16_first_interpretation_is_maximal :
                                         [HNone; HInt 3%Z; HInt (-1)%Z; HInst 5%Z; HGlobObj; HBad]) opt_grid)
           (seedable_eps ++ [E_cp_plsr; E_power_iteration; E_tt_svd; E_rng_free]) = true.
 Proof. vm_compute. reflexivity. Qed.
+
+(* THE FIRST INTERPRETATION IS THE MAXIMAL ONE, as universal theorems (the Example above is the same statement by computation on
+   the option grid, for one opposite interpretation).  [fm] is a syntactic test on skeletons (Proofs/DrawsProofsMax.v): the second
+   alternative of every data-dependent branch is inert (no check, no draw at any depth), first alternatives and loop bodies
+   leave the scope's rng variable alone, no child generator.  (1) every modelled definition passes it, for ALL option values;
+   (2) for ANY generator, any skeleton passing it, ANY interpretation I and any interpretation J that takes every first
+   alternative and never leaves a loop early, any random_state, any two environments and global states: the call under I draws
+   from no class of generator (0 = the global one, 1 = the caller's instance, 2 = an object created inside the call) that the
+   call under J does not draw from, and fails only if the call under J fails; (3) hence, on the toy generator the
+   correspondence executes, the five-bit projection of every modelled definition under EVERY interpretation is componentwise
+   below the projection corr:C16 compares the trace with -- for all options, all kinds of random_state. *)
+Theorem C16_skeletons_first_maximal : forall (e : ep) (o : opts), fm (skeleton e o) = true.
+Proof. exact skeleton_fm. Qed.
+Print Assumptions C16_skeletons_first_maximal.
+
+Theorem C16_first_maximal_any_generator : forall (gstate value req : Type) (draw : req -> gstate -> value * gstate) (seed : Z -> gstate)
+    (sk : skel), fm sk = true ->
+  forall (I J : interp value req), first_like value req J ->
+  forall (a : rsarg gstate) envI envJ gI gJ,
+    let oI := fst (call gstate value req draw seed envI I sk a gI) in
+    let oJ := fst (call gstate value req draw seed envJ J sk a gJ) in
+    (o_failed oI = true -> o_failed oJ = true) /\
+    (forall k, has (length (heap0 gstate a)) k (o_srcs oI) -> has (length (heap0 gstate a)) k (o_srcs oJ)).
+Proof. exact call_first_maximal. Qed.
+Print Assumptions C16_first_maximal_any_generator.
+
+Theorem C16_first_interpretation_maximal : forall (e : ep) (o : opts) (a : rsarg Z) (I : interp Z nat),
+  proj_le (model_projection_with I e o a) (model_projection e o a) = true.
+Proof. exact first_interpretation_maximal. Qed.
+Print Assumptions C16_first_interpretation_maximal.
+
+(* non-vacuity: toy_interp is first-like; the premise [fm] is needed -- a branch whose SECOND alternative draws from numpy.random is
+   rejected by it, and the opposite interpretation then draws from the global generator while the first one draws nothing *)
+Example C16_first_maximal_nonvacuous :
+  first_like Z nat toy_interp /\ fm (skeleton E_parafac2 ex_opts) = true /\
+  (let sk := Branch 0 Skip (DrawNp 1) in
+   fm sk = false /\
+   project (HInt 3%Z) (fst (call Z Z nat toy_draw toy_seed toy_env toy_interp_alt sk (HInt 3%Z) 77%Z)) 77%Z (snd (call Z Z nat toy_draw toy_seed toy_env toy_interp_alt sk (HInt 3%Z) 77%Z))
+     = (true, true, false, false, true) /\
+   project (HInt 3%Z) (fst (call Z Z nat toy_draw toy_seed toy_env toy_interp sk (HInt 3%Z) 77%Z)) 77%Z (snd (call Z Z nat toy_draw toy_seed toy_env toy_interp sk (HInt 3%Z) 77%Z))
+     = (true, false, false, false, false)).
+Proof. split; [split; intros; reflexivity|]. split; [reflexivity|]. exact fm_needed. Qed.
+
+(* GENUINE DEFECT, environment dependent (found in round 8 by tracing the sparse backend on dense matrices): tensorly/contrib/sparse/
+   backend/numpy_backend.py partial_svd(random_state=<int>) seeds only ARPACK's START vector; on a SciPy whose eigsh has an `rng`
+   argument (here 1.18) eigsh draws ARPACK's RESTART vectors from numpy.random.default_rng(None) -- operating-system entropy --
+   and partial_svd does not pass `rng`.  Failing input on the real code: partial_svd(numpy.diag([2, 1, 0, 0, 0, 0, 0]), 3,
+   random_state=3) called twice returns different third singular vectors (rank 2 < n_eigenvecs: the Lanczos process breaks down
+   and restarts).  Model: Model/DrawsSparse.v ([entropy] = the source exists; a process-wide source is written DrawNp as
+   everywhere).  _refuted: the join-precise analysis rejects the skeleton and one int seed gives two outcomes from two states of
+   the process-wide source.  _partial: what does hold -- (1) without the source (eigsh given a generator derived from the
+   resolved one: the candidate repair; or an older SciPy), and when random_state is not looked at, an int / instance gives one
+   outcome from every global state and environment and leaves the global generator alone; (2) with the source, every run in
+   which ARPACK needs no restart vector IS a run of the source-free skeleton. *)
+Theorem C16_sparse_partial_svd_refuted :
+  global_free_w (sk_sparse_partial_svd true false) = false /\
+  exists (I : interp Z nat) (g g' : Z),
+    fst (call Z Z nat toy_draw toy_seed toy_env I (sk_sparse_partial_svd true false) (HInt 3%Z) g) <>
+    fst (call Z Z nat toy_draw toy_seed toy_env I (sk_sparse_partial_svd true false) (HInt 3%Z) g').
+Proof. exact sparse_partial_svd_refuted. Qed.
+Print Assumptions C16_sparse_partial_svd_refuted.
+
+Theorem C16_sparse_partial_svd_partial : forall (gstate value req : Type) (draw : req -> gstate -> value * gstate) (seed : Z -> gstate),
+  (forall (full : bool) (I : interp value req) (a : rsarg gstate),
+     absp (param0 gstate a) = PInt \/ absp (param0 gstate a) = PLoc ->
+     (forall env env' g g', fst (call gstate value req draw seed env I (sk_sparse_partial_svd false full) a g) =
+                            fst (call gstate value req draw seed env' I (sk_sparse_partial_svd false full) a g')) /\
+     (forall g, snd (call gstate value req draw seed (fun _ x => x) I (sk_sparse_partial_svd false full) a g) = g)) /\
+  (forall (I : interp value req), (forall h, decide I 6 h = false) ->
+     forall env (a : rsarg gstate) g,
+       call gstate value req draw seed env I (sk_sparse_partial_svd true false) a g =
+       call gstate value req draw seed env I (sk_sparse_partial_svd false false) a g).
+Proof. exact sparse_partial_svd_partial. Qed.
+Print Assumptions C16_sparse_partial_svd_partial.
+
+(* the source-free skeleton is the one of randomized_range_finder (what corr:C16 compares the traced sparse calls with) and the
+   five bits the model predicts for the skeleton WITH the source and an int seed: completes, process-wide source drawn from, fresh object drawn from *)
+Example C16_sparse_partial_svd_examples :
+  sk_sparse_partial_svd false false = Seq Check (Seq (Draw 2) Skip) /\
+  (let (o, g') := call Z Z nat toy_draw toy_seed toy_env toy_interp (sk_sparse_partial_svd true false) (HInt 3%Z) 77%Z in
+   project (HInt 3%Z) o 77%Z g') = (true, true, true, false, true) /\
+  (let (o, g') := call Z Z nat toy_draw toy_seed toy_env toy_interp (sk_sparse_partial_svd false false) (HInt 3%Z) 77%Z in
+   project (HInt 3%Z) o 77%Z g') = (true, false, true, false, false).
+Proof. vm_compute. repeat split; reflexivity. Qed.
 
 (* a child generator in the first language ([Reseed]: rng = RandomState(<expr of the values drawn so far>), e.g. a sampler seeded
    with rng.randint(2**31)): the conservative analysis leaves it to the join-precise one (the seed may be out of range), which
